@@ -33,6 +33,8 @@ KnownShapes == (v = "" /\ b = "") =>
     /\ Defect("MATCH (a:GraphNode {{GraphID: $graphId, NodeID: $nodeA}}) -[r:{kind}]- (b) RETURN r", {"graphId", "nodeA"}) = "unexpanded template fragment"
     /\ Defect("MATCH (a {GraphID: $graphId}) -[r:has]- (b) SET r+= { x: 'y' } RETURN properties(s)", {"graphId"}) = "variable referenced but never bound"
     /\ Defect("MATCH (a {GraphID: $graphId, NodeID: $nodeA}) RETURN a", {"graphId"}) = "parameter named but not supplied"
+    /\ Defect("with 'match(n:GraphNode {GraphID: \"g\\\\\\\\\"}) return n' as query CALL apoc.export.graphml.query(query, null, {stream: true}) YIELD data RETURN data", {}) = ""
+    /\ Defect("with 'match(n:GraphNode {GraphID: \"g\\\\\"}) return n' as query CALL apoc.export.graphml.query(query, null, {stream: true}) YIELD data RETURN data", {}) = "nested statement: unterminated literal"
     /\ Defect("MATCH (n) WHERE size([(n) -[:has]- (:Component {GraphID: $graphId, Type: \"SharedNIC\" , }) | n.NodeID])>=1 RETURN n", {"graphId"}) = "dangling separator"
     /\ Defect("MATCH (a:GraphNode {GraphID: $graphId, NodeID: $nodeA}), (z:GraphNode {GraphID: $graphId, NodeID: $nodeZ}) CALL apoc.algo.allSimplePaths(a, z, 'connects|has', $cut_off) YIELD path AS path WITH path, relationships(path) AS rels WHERE size(rels) = size(apoc.coll.toSet(rels)) RETURN [node in nodes(path) | node.NodeID] AS nodeids", {"graphId", "nodeA", "nodeZ", "cut_off"}) = ""
     /\ Defect("match (a:GraphNode {GraphID: $graphId, NodeID: $nodeA}) with a match (z:GraphNode {GraphID: $graphId, NodeID: $nodeZ}), p=shortestPath((a) -[:has*1..]- (z)) with nodes(p) as pathnodes unwind pathnodes as pathnode return collect(pathnode.NodeID) as nodeids", {"graphId", "nodeA", "nodeZ"}) = ""
